@@ -5,8 +5,25 @@ L7.  The launch layer: `termination.rs::compile`, the command loop of `async_lau
 Durations are milliseconds (`Nat`); the time limit is an event (`timeout` fires at most once: the future is fused).
 -/
 import CambrianModel.Model.F64
+import CambrianModel.Model.Generated
 namespace Cambrian.Launch
 open Cambrian
+
+/-! ### `meta.rs::AlgoConfigBuilder::build` (defaults and rejections are read from the source on every run) -/
+
+structure AlgoCfg where
+  sampleSize : Nat
+  numConcurrent : Nat
+  deriving DecidableEq, Repr
+
+inductive CfgErr where | zeroSampleSize | zeroNumConcurrent
+  deriving DecidableEq, Repr
+
+def buildConfig (ss nc : Option Nat) : Except CfgErr AlgoCfg :=
+  let c : AlgoCfg := { sampleSize := ss.getD Generated.defaultSampleSize, numConcurrent := nc.getD Generated.defaultNumConcurrent }
+  if Generated.zeroSampleSizeRejected && c.sampleSize == 0 then .error .zeroSampleSize
+  else if Generated.zeroNumConcurrentRejected && c.numConcurrent == 0 then .error .zeroNumConcurrent
+  else .ok c
 
 /-! ### `termination::compile` -/
 
